@@ -162,7 +162,8 @@ V("C15", "twin: truncated determinant on database rotations", "silent", (SYM, " 
 V("C15", "rotations of the input cell with float equality", "R15.1", (SYM, "        hall_number = self.get_hall_number()\n        rotations = spglib.get_symmetry_from_database(hall_number)[\"rotations\"]", "        rotations = self.get_symmetry_operations()[\"rotations\"]"), (SYM, "if determinant < 0:", "if determinant == -1.0:"))
 V("C15", "rotations of the input cell (supercell subgroup)", "R15.3", (SYM, "        hall_number = self.get_hall_number()\n        rotations = spglib.get_symmetry_from_database(hall_number)[\"rotations\"]", "        rotations = self.get_symmetry_operations()[\"rotations\"]"))
 V("C15", "database queried with a constant hall number", "R15.3", (SYM, "rotations = spglib.get_symmetry_from_database(hall_number)[\"rotations\"]", "rotations = spglib.get_symmetry_from_database(1)[\"rotations\"]"))
-V("C15", "memo not cleared by reset", "R15.4", (SYM, "        self._best_transform = None\n\n    def get_material_id", "\n    def get_material_id"))
+V("C15", "twin: a memo that the chirality getters never read is not cleared by reset", "silent", (SYM, "        self._best_transform = None\n\n    def get_material_id", "\n    def get_material_id"))
+V("C15", "dataset memo not cleared by reset", "R15.4", (SYM, "        \"\"\"Used to reset all the cached values.\"\"\"\n        self._symmetry_dataset = None\n", "        \"\"\"Used to reset all the cached values.\"\"\"\n"))
 V("C15", "twin: rounded equality", "silent", (SYM, "if determinant < 0:", "if round(determinant) == -1:"))
 V("C15", "twin: isclose", "silent", (SYM, "if determinant < 0:", "if np.isclose(determinant, -1):"))
 V("C15", "twin: vectorised determinant test over all database rotations", "silent", (SYM, '        chiral = True\n        for rotation in rotations:\n            determinant = np.linalg.det(rotation)\n            if determinant < 0:\n                return False\n\n        return chiral', "        return bool(np.all(np.linalg.det(rotations) > 0))"))
@@ -354,7 +355,7 @@ V("C01", "wrap after the distances", "R01.13", (SBC, "        # Positions are wr
 
 V("C13", "sub-matrix from the raw distances", "R13.2", (CLU, "self._distance_matrix_radii_mic = self._distances.dist_matrix_radii_mic[", "self._distance_matrix_radii_mic = self._distances.dist_matrix_mic["))
 V("C13", "atoms in sorted order", "R13.4", (CLU, "        return self._system[self.indices]", "        return self._system[sorted(self.indices)]"))
-V("C13", "generator kept between calls", "R13.5", (SBC, "        self.rng = np.random.default_rng(seed)\n", "        if not hasattr(self, \"rng\"):\n            self.rng = np.random.default_rng(seed)\n"))
+V("C13", "twin: generator kept between calls (a C01 break; cannot make shortcut and direct evaluation differ)", "silent", (SBC, "        self.rng = np.random.default_rng(seed)\n", "        if not hasattr(self, \"rng\"):\n            self.rng = np.random.default_rng(seed)\n"))
 V("C01", "generator kept between calls", "R01.2", (SBC, "        self.rng = np.random.default_rng(seed)\n", "        if not hasattr(self, \"rng\"):\n            self.rng = np.random.default_rng(seed)\n"))
 V("C04", "enlargement only when the extent exceeds the cell", "R04.9", (SBC, "if max_pos > 1 or min_pos < 0:", "if max_pos - min_pos > 1:"))
 V("C01", "twin: enlargement test written with the bounds swapped", "silent", (SBC, "if max_pos > 1 or min_pos < 0:", "if min_pos < 0 or max_pos > 1:"))
